@@ -32,6 +32,11 @@ def cases(tier, seed, args):
         out.append(dict(t='fp', kind=kind, K=4, D=int(rng.integers(6, 9)), F=1 + (i % 2), iterations=[2, 5, 3, 20][i % 4], blur=float(rng.uniform(0.3, 0.45)),
                         noise=float(10.0 ** rng.uniform(-4, -2)), seed=int(rng.integers(1 << 30)), gains=False, gainmode='mixed',
                         E=int(rng.integers(6, 9)), sizes=[10, 40, 40, 40]))
+    # cBMM with a finite concentration limit and D >= 4: several small eigenvalues are clipped to the limit and tie exactly
+    for i in range(6 if q else 36):
+        out.append(dict(t='fp', kind='cbmm', K=2, D=[4, 5, 4][i % 3], F=1, iterations=[1, 2][i % 2], blur=float(rng.uniform(0, 0.3)),
+                        noise=float(10.0 ** rng.uniform(-2, -1.3)), seed=int(rng.integers(1 << 30)), gains=False, gainmode='mixed', E=2,
+                        trainer_kw=dict(max_concentration=[100.0, 50.0, 300.0][(i // 2) % 3])))
     return out
 
 
@@ -82,7 +87,10 @@ def run_case(case):
     init = (1 - case['blur']) * onehot + case['blur'] / K
     fp = f't=fp;model={kind};it={case["iterations"]};gains={case["gains"]};gainmode={case.get("gainmode")}'
     key = f'fp:{case["seed"]}'
-    model, exc = call(ml.fit, kind, data, init, case['iterations'], {})
+    tkw = case.get('trainer_kw') or {}
+    if tkw:
+        fp += f';trainer={tkw}'
+    model, exc = call(ml.fit, kind, data, init, case['iterations'], {}, ml.trainer_for(kind, **tkw) if tkw else None)
     if model is None:
         return [dict(kind='fixedpoint', exc=exc, fp=fp, key=key)]
     post, e2 = call(ml.predict, kind, model, data)
